@@ -298,7 +298,10 @@ func bytesPrefixRange(prefix, start []byte) *pebble.IterOptions {
 	} else {
 		r.LowerBound = []byte{}
 	}
-	r.LowerBound = append(r.LowerBound, start...)
+	// the bound gets a buffer of its own: appending to the caller's prefix would write into its spare capacity
+	lower := make([]byte, 0, len(r.LowerBound)+len(start))
+	lower = append(lower, r.LowerBound...)
+	r.LowerBound = append(lower, start...)
 	return &r
 }
 
